@@ -430,6 +430,12 @@ def check_polar(ctx, rules=("METRIC", "ANGLES", "DIV0")):
                                f"norm taken as `{U(s.value)}`")
     if dist_name is None and "METRIC" in rules:
         ctx.violate("METRIC", site + ":norm", fi, "distance is not the norm of the periodic difference vector")
+    # ---- the angles are dispatched on the *space* dimension (symmetric grids have fewer axes than dimensions)
+    if "ANGLES" in rules or "ARITY" in rules:
+        disp = [s_ for s_ in fv.statements() if isinstance(s_, ast.If) and any(x in U(fv.expand(s_.test, s_, stop=(grid_p,))) for x in (f"{grid_p}.num_axes", f"len({grid_p}.shape)", f"{grid_p}.ndim", f"len({grid_p}.axes)"))]
+        if disp:
+            ctx.violate("ANGLES", site + ":dispatch", (fi, disp[0]), f"the angle convention is selected by `{U(disp[0].test)[:60]}` (number of grid axes), not by the space dimension grid.dim: on a "
+                        "cylindrical grid (dim 3, two axes) the 2-d convention is used and every cell of a 3-d droplet gets the wrong polar angle")
     # ---- ANGLES: convention per dimension
     if "ANGLES" in rules and diff_name:
         def comp(k):
